@@ -14,7 +14,7 @@ package main
 //	sess <foreign> <cfg> <tree> <k> {req}
 //	cfg  = <n>{h goos} <n>{h goarch} <n>{h goversion} <n>{h name <n>{h version} <n>{h counter} <n>{h stack}}
 //	tree = <n> {h<path relative to the upload bucket dir> <d|f> h<content>}
-//	req  = h<method> h<url path> <transport> <declared Content-Length> h<body prefix> <pad byte> <pad count> h<body suffix> <size_ok>
+//	req  = h<method> h<url path> <transport> <declared Content-Length> <framing ok> h<bytes sent after the header when ill-framed> h<body prefix> <pad byte> <pad count> h<body suffix> <size_ok>
 //	       <dec> <2xx|3xx|4xx|5xx> <outside_ok> <na|same|differs> <tree>
 //	dec  = err | ok h<week> h<lastweek> <xzero> h<%g of X> h<config> <semver ok> <n>{prog} h<json.Marshal(report)>
 //	prog = nil | p h<program> h<version> h<goversion> h<goos> h<goarch> <n>{h<counter> <value>} <n>{h<stack> <value>}
@@ -24,6 +24,7 @@ import (
 	"bytes"
 	"context"
 	"encoding/json"
+	"errors"
 	"fmt"
 	"io"
 	"io/fs"
@@ -530,6 +531,60 @@ func rawRequest(addr, method, urlPath, framing string, payload []byte) int {
 	return resp.StatusCode
 }
 
+// failingReader is a request body whose transport breaks: Read fails with an
+// error that is not the size limit's.
+type failingReader struct{}
+
+func (failingReader) Read([]byte) (int, error) {
+	return 0, errors.New("transport: connection reset while reading the body")
+}
+
+// badChunked renders b in chunked transfer coding with ONE framing error that
+// no decoder can get past (net/http's client API cannot produce any of them).
+func badChunked(b []byte) []byte {
+	var out bytes.Buffer
+	good := func(data []byte) {
+		if len(data) > 0 {
+			fmt.Fprintf(&out, "%x\r\n", len(data))
+			out.Write(data)
+			out.WriteString("\r\n")
+		}
+	}
+	cut := 0
+	if len(b) > 0 {
+		cut = vrnd.Intn(len(b) + 1)
+	}
+	switch vrnd.Intn(8) {
+	case 0: // chunk size that is not hexadecimal
+		good(b[:cut])
+		out.WriteString(Pick(vrnd, []string{"ZZ", "0x10", "g", "1 0", "5 junk"}) + "\r\n")
+	case 1: // chunk data not followed by CRLF
+		fmt.Fprintf(&out, "%x\r\n", len(b))
+		out.Write(b)
+		out.WriteString("XX\r\n0\r\n\r\n")
+	case 2: // chunk length wider than 64 bits
+		good(b[:cut])
+		out.WriteString("FFFFFFFFFFFFFFFFF\r\n")
+	case 3: // malformed trailer after a complete body
+		good(b)
+		out.WriteString("0\r\nBadTrailerWithoutColon\r\n\r\n")
+	case 4: // empty chunk-size line
+		good(b[:cut])
+		out.WriteString("\r\n")
+	case 5: // negative chunk size
+		good(b[:cut])
+		out.WriteString("-5\r\nhello\r\n")
+	case 6: // bare LF line ends
+		fmt.Fprintf(&out, "%x\n", len(b))
+		out.Write(b)
+		out.WriteString("\n0\n\n")
+	default: // a chunk size line of NUL and control bytes
+		good(b[:cut])
+		out.WriteString("\x00\x01\x7f\r\n")
+	}
+	return out.Bytes()
+}
+
 // chunked transfer coding of b in one to three chunks
 func chunked(b []byte) []byte {
 	var out bytes.Buffer
@@ -618,10 +673,14 @@ func caseSession() {
 		// How the body travels and which length the client DECLARES.  The answer must depend on the bytes
 		// of the body only (and on whether they exceed the limit), never on the declared length.
 		transport, declared := "direct", int64(len(raw))
+		framingOK := true
+		var wire []byte // for ill-framed messages: the bytes sent after the header
 		var code int
 		switch tr := vrnd.Intn(100); {
-		case tr < 60: // handler called directly, honest Content-Length
-		case tr < 96: // handler called directly, http.Request.ContentLength set by hand
+		case tr < 57: // handler called directly, honest Content-Length
+		case tr < 60: // the body reader fails with a transport error that is not the size limit, after k bytes
+			transport, framingOK = "direct-read-error", false
+		case tr < 94: // handler called directly, http.Request.ContentLength set by hand
 			n := int64(len(raw))
 			declared = Pick(vrnd, []int64{-1, -1, 0, n - 1, n + 1, n + 1000, int64(limit), int64(limit) + 1, 10 * int64(limit), 1 << 26,
 				1 << 50, 1 << 62, math.MaxInt64, math.MaxInt64 - 1, 1 << 55})
@@ -633,7 +692,18 @@ func caseSession() {
 			if srv == nil {
 				srv = httptest.NewServer(handler)
 			}
-			switch vrnd.Intn(5) {
+			switch vrnd.Intn(7) {
+			case 5, 6:
+				// Transfer-Encoding: chunked with framing that cannot be decoded; the client keeps the
+				// connection open and waits for the answer.  Small messages only: everything sent is
+				// consumed by the server before it answers.
+				if len(raw) > 1500 {
+					body = plain(goodSpec(pool).body())
+					raw = body.bytes()
+				}
+				transport, declared, framingOK = "listener-bad-chunking", -1, false
+				wire = badChunked(raw)
+				code = rawRequest(srv.Listener.Addr().String(), method, urlPath, "Transfer-Encoding: chunked\r\n", wire)
 			case 0, 1:
 				transport = "listener-honest"
 				code = rawRequest(srv.Listener.Addr().String(), method, urlPath, fmt.Sprintf("Content-Length: %d\r\n", len(raw)), raw)
@@ -658,7 +728,15 @@ func caseSession() {
 		}
 		vout.Note("transport:" + transport)
 		if strings.HasPrefix(transport, "direct") {
-			req := httptest.NewRequest(method, urlPath, bytes.NewReader(raw))
+			var rd io.Reader = bytes.NewReader(raw)
+			if transport == "direct-read-error" {
+				k := 0
+				if len(raw) > 0 {
+					k = vrnd.Intn(len(raw) + 1)
+				}
+				rd = io.MultiReader(bytes.NewReader(raw[:k]), failingReader{})
+			}
+			req := httptest.NewRequest(method, urlPath, rd)
 			req.ContentLength = declared
 			rec := httptest.NewRecorder()
 			handler.ServeHTTP(rec, req)
@@ -668,6 +746,9 @@ func caseSession() {
 			vout.Note("declared-length:differs-from-body")
 		}
 		dec, report := decTokens(raw)
+		if !framingOK { // no body reaches the handler
+			dec, report = []string{"err"}, nil
+		}
 
 		tree, after := vtree(uploadDir)
 		redecode := "na"
@@ -689,7 +770,7 @@ func caseSession() {
 		outsideOK := reflect.DeepEqual(outside, nowOutside)
 		outside = nowOutside
 
-		fields = append(fields, HS(method), HS(urlPath), transport, I(declared), H(body.prefix), I(int64(body.pad)), I(int64(body.padCount)), H(body.suffix),
+		fields = append(fields, HS(method), HS(urlPath), transport, I(declared), B(framingOK), H(wire), H(body.prefix), I(int64(body.pad)), I(int64(body.padCount)), H(body.suffix),
 			B(len(raw) <= limit))
 		fields = append(fields, dec...)
 		fields = append(fields, fmt.Sprintf("%dxx", code/100), B(outsideOK), redecode)
